@@ -1194,7 +1194,9 @@ pub fn ty_strategy(cfg: &GenCfg, max_named: usize) -> BoxedStrategy<Ty> {
     let cfg2 = cfg.clone();
     leaf.prop_recursive(3, 8, 3, move |inner| {
         let cfg = cfg2.clone();
-        let fnptr = (prop_oneof![1 => Just(Ty::Void), 3 => inner.clone()], proptest::collection::vec(inner.clone(), 0..4), proptest::bool::weighted(0.1))
+        // around the 12-parameter limit of the standard library's impls for function pointers
+        let many = (11usize..16).prop_map(|n| (0..n).map(|k| Ty::Prim(if k % 3 == 0 { Prim::Int } else if k % 3 == 1 { Prim::Double } else { Prim::UChar })).collect::<Vec<Ty>>());
+        let fnptr = (prop_oneof![1 => Just(Ty::Void), 3 => inner.clone()], prop_oneof![7 => proptest::collection::vec(inner.clone(), 0..4), 1 => many], proptest::bool::weighted(0.1))
             .prop_map(|(ret, params, variadic)| Ty::FnPtr { ret: Box::new(ret), params, variadic });
         let ptr = (prop_oneof![1 => Just(Ty::Void), 5 => inner.clone()], proptest::bool::weighted(0.3)).prop_map(|(to, is_const)| Ty::Ptr { to: Box::new(to), is_const });
         let arr = (inner.clone(), proptest::collection::vec(arr_len(&cfg), 1..3)).prop_map(|(of, dims)| Ty::Array { of: Box::new(of), dims });
